@@ -8,6 +8,9 @@ import (
 	"math/rand"
 	"os"
 	"reflect"
+	"runtime/debug"
+	"sync/atomic"
+	"syscall"
 	"time"
 	"unicode"
 	"unicode/utf8"
@@ -35,9 +38,23 @@ type fake struct {
 	items []item
 	pos   int
 	reads []read // reads of the current readEvent call
+	// budget: reads one readEvent call may still perform (remaining script + slack)
+	budget int
 }
 
+// progress counts reads of all fakes; the guard polls it while a call is running.
+var progress atomic.Int64
+
+// budgetExceeded is the panic value used to abort a readEvent call that reads
+// more often than the script is long.
+type budgetExceeded struct{}
+
 func (f *fake) ReadByteWithTimeout(timeout time.Duration) (byte, error) {
+	progress.Add(1)
+	f.budget--
+	if f.budget < 0 {
+		panic(budgetExceeded{})
+	}
 	neg := timeout < 0
 	for {
 		if f.pos >= len(f.items) {
@@ -55,6 +72,104 @@ func (f *fake) ReadByteWithTimeout(timeout time.Duration) (byte, error) {
 			return 0, term.VerifErrTimeout
 		}
 		// a reader that waits forever sits out the pause and gets the next byte
+	}
+}
+
+// ---------------------------------------------------------------------------
+// guarded execution of readEvent
+
+type result struct {
+	ev       term.Event
+	err      error
+	overread bool // aborted by the fake: more reads than the script is long
+	panicked any
+	stack    string
+}
+
+type worker struct {
+	req chan *fake
+	res chan result
+}
+
+var curWorker *worker
+
+// poisoned: a readEvent call of this process never came back; its goroutine
+// is still spinning, so nothing run afterwards in this process is trusted.
+var poisoned bool
+
+func newWorker() *worker {
+	w := &worker{make(chan *fake), make(chan result)}
+	go func() {
+		for f := range w.req {
+			w.res <- runOne(f)
+		}
+	}()
+	return w
+}
+
+func runOne(f *fake) (r result) {
+	defer func() {
+		if p := recover(); p != nil {
+			if _, ok := p.(budgetExceeded); ok {
+				r.overread = true
+				return
+			}
+			r.panicked = p
+			r.stack = string(debug.Stack())
+		}
+	}()
+	r.ev, r.err = term.VerifReadEvent(f)
+	return
+}
+
+func cpuSeconds() float64 {
+	var ru syscall.Rusage
+	syscall.Getrusage(syscall.RUSAGE_SELF, &ru)
+	return float64(ru.Utime.Sec+ru.Stime.Sec) + float64(ru.Utime.Usec+ru.Stime.Usec)/1e6
+}
+
+var guardTimer = time.NewTimer(time.Hour)
+
+const spinCPU = 1.5 // CPU seconds one call may burn without reading or returning
+
+// guardedReadEvent runs one readEvent call on the worker goroutine. stuck is
+// true if the call consumed spinCPU seconds of CPU time without performing a
+// read and without returning (a wall-clock ticker only triggers the look; the
+// verdict is "CPU burnt, no read, no return").
+func guardedReadEvent(f *fake) (r result, stuck bool) {
+	if curWorker == nil {
+		curWorker = newWorker()
+	}
+	w := curWorker
+	w.req <- f
+	if !guardTimer.Stop() {
+		select {
+		case <-guardTimer.C:
+		default:
+		}
+	}
+	guardTimer.Reset(200 * time.Millisecond)
+	select {
+	case r = <-w.res:
+		return r, false
+	case <-guardTimer.C:
+	}
+	cpu0, reads0 := cpuSeconds(), progress.Load()
+	tick := time.NewTicker(100 * time.Millisecond)
+	defer tick.Stop()
+	for {
+		select {
+		case r = <-w.res:
+			return r, false
+		case <-tick.C:
+			if n := progress.Load(); n != reads0 {
+				cpu0, reads0 = cpuSeconds(), n
+			} else if cpuSeconds()-cpu0 >= spinCPU {
+				curWorker = nil // abandon the spinning goroutine
+				poisoned = true
+				return result{}, true
+			}
+		}
 	}
 }
 
@@ -115,6 +230,10 @@ func evString(ev term.Event) string { return fmt.Sprintf("%T%+v", ev, ev) }
 // bounded-blocking oracles to every call. It returns the calls and false if a
 // violation was reported.
 func decode(c *mon.Case, items []item) ([]call, bool) {
+	if poisoned {
+		c.Inconclusive("process-abandoned-after-nonterminating-decode")
+		return nil, false
+	}
 	f := &fake{items: items}
 	var calls []call
 	wit := func(extra map[string]any) map[string]any {
@@ -131,8 +250,24 @@ func decode(c *mon.Case, items []item) ([]call, bool) {
 		}
 		from := f.pos
 		f.reads = f.reads[:0]
-		ev, err := term.VerifReadEvent(f)
+		f.budget = len(items) - f.pos + 8
+		res, stuck := guardedReadEvent(f)
 		acc["readevent_calls"]++
+		if stuck {
+			c.Violation("nonterminating-decode:no-progress",
+				fmt.Sprintf("one readEvent call burnt %.0f s of CPU without reading a byte and without returning", spinCPU), wit(nil))
+			return calls, false
+		}
+		if res.overread {
+			c.Violation("nonterminating-decode",
+				fmt.Sprintf("one readEvent call performed more than %d reads on a script with %d items left", len(items)-from+8, len(items)-from), wit(nil))
+			return calls, false
+		}
+		if res.panicked != nil {
+			c.Violation("panic:"+fmt.Sprint(res.panicked), "readEvent panicked: "+fmt.Sprint(res.panicked), wit(map[string]any{"stack": res.stack}))
+			return calls, false
+		}
+		ev, err := res.ev, res.err
 		if len(f.reads) == 0 {
 			c.Violation("total:no-read", "readEvent returned without reading a byte", wit(nil))
 			return calls, false
@@ -199,6 +334,38 @@ var biased = []string{
 	"\x1b[", "\x1bO", "\x1b[<", "\x1b[M", "\x1b\x1b[", "\x1b[1;5", "\x1b[27;5;", "\x1b[<0;1;1",
 }
 
+// longCSI returns ESC [ [<] p1 [; p2 [; p3]] terminator where at least one
+// parameter has 6..20 digits (leading digit non-zero or zero).
+func longCSI(r *rand.Rand) string {
+	digits := func(n int) string {
+		b := make([]byte, n)
+		for i := range b {
+			b[i] = byte('0' + r.Intn(10))
+		}
+		if r.Intn(3) > 0 {
+			b[0] = byte('1' + r.Intn(9))
+		}
+		return string(b)
+	}
+	s := "\x1b["
+	if r.Intn(4) == 0 {
+		s += "<"
+	}
+	np := 1 + r.Intn(3)
+	long := r.Intn(np)
+	for i := 0; i < np; i++ {
+		if i > 0 {
+			s += ";"
+		}
+		if i == long {
+			s += digits(6 + r.Intn(15))
+		} else {
+			s += digits(1 + r.Intn(4))
+		}
+	}
+	return s + []string{"~", "A", "R", "m", "M", "$", "^", "@", "H", "Z", ""}[r.Intn(11)]
+}
+
 func randomScript(r *rand.Rand) []item {
 	var items []item
 	n := 1 + r.Intn(14)
@@ -206,6 +373,9 @@ func randomScript(r *rand.Rand) []item {
 	for i := 0; i < n; i++ {
 		var s string
 		switch r.Intn(10) {
+		case 1: // CSI with parameters of 6..20 digits
+			s = longCSI(r)
+			acc["long_csi_param_pieces"]++
 		case 0:
 			b := make([]byte, r.Intn(5))
 			for j := range b {
@@ -425,6 +595,39 @@ func runExhaustive(c *mon.Case) {
 		}
 	}
 	rec(0)
+	if stop {
+		return
+	}
+	// second family: ESC [ [<] d digits terminator for every d = 1..20 (digit values vary with the case)
+	for d := 1; d <= 20; d++ {
+		for _, starter := range []string{"", "<"} {
+			for _, term := range []string{"~", "A", "R", "m", "M", ";5~", "$", ";1;1M"} {
+				b := make([]byte, d)
+				for i := range b {
+					b[i] = byte('0' + (c.I*7+i*3+d)%10)
+				}
+				if c.I%2 == 0 {
+					b[0] = byte('1' + c.I%9)
+				}
+				items := []item{{b: 0x1b}, {b: '['}}
+				for _, x := range []byte(starter + string(b) + term) {
+					items = append(items, item{b: x})
+				}
+				items = append(items, item{gap: true})
+				textFrom := len(items)
+				items = append(items, textItems(nil, tail, 0)...)
+				calls, ok := decode(c, items)
+				acc["evals"]++
+				acc["exhaustive_scripts"]++
+				if d >= 6 {
+					acc["long_csi_param_scripts_exhaustive"]++
+				}
+				if !ok || !checkTail(c, "lossless:after-pause", items, calls, textFrom, tail) {
+					return
+				}
+			}
+		}
+	}
 }
 
 func runPlain(c *mon.Case) {
@@ -581,7 +784,7 @@ func runE2E(c *mon.Case) {
 func Spec() *mon.Spec {
 	return &mon.Spec{
 		ID: "C31", Level: "exploration",
-		Rule: "case = batch of scripts for the event decoder (term.readEvent through a scripted byte source: bytes, pauses that outlast every finite timeout, EOF at the end). Every readEvent call is checked: returns exactly one of event/error, reads at least one item, only its first read may wait forever, no read after a read that timed out. Phases: random (biased to ESC/CSI/SS3/mouse/digits/invalid UTF-8 with random pauses), exhaustive (ESC + every word of length <= 4 (quick) / 5 (thorough) over 14 symbols, with one pause at every position, followed by a pause and plain text that must come out intact), plain (printable runes of all UTF-8 lengths, pauses only at character boundaries, also after random junk + pause: exactly one unmodified key event per rune), e2e (same script through term.NewReader on an os.Pipe must give the same events as through the scripted source). Non-trivial = case (a batch of 200 random scripts containing at least one ESC script / one residue class of the exhaustive word set / a batch of 100 texts / one script replayed on the real pipe reader); distinct by the scripts in the batch. Script totals are in the n_* counters.",
+		Rule: "case = batch of scripts for the event decoder (term.readEvent through a scripted byte source: bytes, pauses that outlast every finite timeout, EOF at the end). Every readEvent call runs on a guarded worker goroutine and is checked: it terminates (at most remaining-script+8 reads, else nonterminating-decode; 3 s of process CPU burnt with no read and no return = nonterminating-decode:no-progress, the process is then abandoned), returns exactly one of event/error, reads at least one item, only its first read may wait forever, no read after a read that timed out. Phases: random (biased to ESC/CSI/SS3/mouse/digits/invalid UTF-8 with random pauses), exhaustive (ESC + every word of length <= 4 (quick) / 5 (thorough) over 14 symbols, with one pause at every position, followed by a pause and plain text that must come out intact; plus ESC [ [<] d digits terminator for every d = 1..20), plain (printable runes of all UTF-8 lengths, pauses only at character boundaries, also after random junk + pause: exactly one unmodified key event per rune), e2e (same script through term.NewReader on an os.Pipe must give the same events as through the scripted source). Non-trivial = case (a batch of 200 random scripts containing at least one ESC script / one residue class of the exhaustive word set / a batch of 100 texts / one script replayed on the real pipe reader); distinct by the scripts in the batch. Script totals are in the n_* counters.",
 		Assumptions: []string{
 			"'block past its timeout' is restated logically: inside one readEvent call only the first read may use a negative timeout and a timed-out read ends the call",
 			"pauses inside the UTF-8 encoding of one character are not generated for the losslessness oracle: read_rune.go documents a 10 ms inter-byte timeout for continuation bytes, so such a stream is not 'plain text arriving normally'; they are generated for the totality oracle",
@@ -598,7 +801,7 @@ func Spec() *mon.Spec {
 			"distinct_nontrivial": 1000, "scripts_with_esc": 50000, "readevent_calls": 500000, "timeouts_inside_sequence": 50000,
 			"seq_errors": 30000, "exhaustive_scripts": 200000, "plain_runes": 100000,
 			"runes_utf8_len_1": 10000, "runes_utf8_len_2": 10000, "runes_utf8_len_3": 10000, "runes_utf8_len_4": 10000,
-			"resync_scripts": 5000, "e2e_readevent_calls": 1000, "e2e_real_timeouts": 30, "event_kinds": 4,
+			"resync_scripts": 5000, "long_csi_param_pieces": 50000, "long_csi_param_scripts_exhaustive": 5000, "e2e_readevent_calls": 1000, "e2e_real_timeouts": 30, "event_kinds": 4,
 		},
 	}
 }
